@@ -113,6 +113,11 @@ def gen(rng, tier):
             # directed: an ABF bias that hides the Jacobian force of a distance variable, next to a restraint; the ABF is deleted
             forced = ["cv_dist", "bias_abfhj", "bias_plain", "step", "step", "del_first"]
             nops += len(forced)
+        if k % 8 == 7:
+            # directed: three ABF biases on one distance variable, the first two hiding the Jacobian force, the last one not; the first is
+            # deleted: the second still needs the hidden-Jacobian mode of the variable
+            forced = ["cv_dist", "bias_abfhj", "bias_abfhj", "bias_abfplain", "step", "step", "del_first"]
+            nops = len(forced)
         if k % 8 == 3:
             # directed: a variable with its own time-step factor n >= 3 and one restraint sharing it; the restraint is deleted at a step
             # that is neither a multiple of n nor the step before one, and the three closing steps follow at once (the variable must go on
@@ -149,6 +154,13 @@ def gen(rng, tier):
                 name = "b%d" % nb; nb += 1
                 use = [sorted(cvs)[0]]
                 conf = "abf {\n name %s\n colvars %s\n fullSamples 2\n integrate off\n hideJacobian on\n}\n" % (name, use[0])
+                lines.append(cfg(conf)); biases[name] = (conf, use); order.append(("bias", name)); oplog.append(("add", "bias", name, conf))
+                lines.append("d.check"); checks.append(len(lines))
+                continue
+            if f == "bias_abfplain":
+                name = "b%d" % nb; nb += 1
+                use = [sorted(cvs)[0]]
+                conf = "abf {\n name %s\n colvars %s\n fullSamples 2\n integrate off\n}\n" % (name, use[0])
                 lines.append(cfg(conf)); biases[name] = (conf, use); order.append(("bias", name)); oplog.append(("add", "bias", name, conf))
                 lines.append("d.check"); checks.append(len(lines))
                 continue
